@@ -58,7 +58,8 @@ def utf8(vc, s):
         return s.encode("utf-8", "surrogateescape")
     import z3
     from pyvc import lib
-    return SBytes(lib.uf("encode_utf-8_surrogateescape", z3.StringSort(), z3.StringSort())(s.t))
+    ascii_ = z3.InRe(s.t, z3.Star(z3.Range(chr(0), chr(127))))
+    return SBytes(z3.If(ascii_, s.t, lib.uf("encode_utf-8_surrogateescape", z3.StringSort(), z3.StringSort())(s.t)))
 
 
 KF1 = "KF-C33-1"   # IPv6 literal hosts are not bracketed
@@ -139,20 +140,24 @@ def mk_request(vc, scheme, host, port, authority, header_fields, http_version=b"
     return vc.new(R, data=data), data, hdrs
 
 
-def header_cases(vc):
-    """pre-existing header fields: none / a Host header in some spelling / Host between two arbitrary other fields / two Host fields"""
-    shape = vc.case("headers", ["none", "host", "other,host,other", "host,host", "other"])
-    spell = vc.case("spelling", [b"Host", b"host", b"HOST"]) if "host" in shape else b"Host"
+PORTS = [80, 443, 8080]   # ports that end up inside a Host/authority string are case-split (int->str is opaque to the solvers);
+                          # url.hostport / unparse themselves are proved for every integer port
+
+HEADER_CONFIGS = ["", "Host", "host", "HOST", "other,Host,other", "host,HOST", "other"]
+
+
+def header_cases(vc, configs=None):
+    """pre-existing header fields: none / one Host header in three spellings / Host between two arbitrary other fields /
+    two Host fields / only an unrelated field.  Names of the other fields are arbitrary symbolic bytes (not 'host' in any case)."""
+    shape = vc.case("headers", configs or HEADER_CONFIGS)
     names, vals = [], []
-    for i, part in enumerate(shape.split(",")):
-        if part == "none":
-            continue
-        if part == "host":
-            names.append(spell)
-        else:
+    for i, part in enumerate([x for x in shape.split(",") if x]):
+        if part == "other":
             nm = vc.sym_bytes(f"other_name{i}")
             vc.assume(Not(same_name(vc, nm, b"host")))
             names.append(nm)
+        else:
+            names.append(part.encode())
         vals.append(vc.sym_bytes(f"old_value{i}"))
     return names, vals
 
@@ -195,24 +200,29 @@ def authority_bytes(vc, s):
     return SBytes(s.t)
 
 
-def _mk_edit(kind):
-    @scenario(f"edit.{kind}", functions=[R + ".host", R + ".port", R + "._update_host_and_authority", R + ".authority", R + ".scheme", U + ":hostport"], idna_facts=True)
+# (header configuration, authority) combinations: every header configuration without authority, and three with one
+EDIT_CONFIGS = [(h, "") for h in HEADER_CONFIGS] + [("", "symbolic"), ("Host", "symbolic"), ("other,Host,other", "symbolic")]
+SCHEME_PORTS = {b"http": [80, 8080], b"https": [443, 80]}   # default and non-default port per scheme
+
+
+def _mk_edit(kind, scheme):
+    @scenario(f"edit.{kind}[{scheme.decode()}]", functions=[R + ".host", R + ".port", R + "._update_host_and_authority", R + ".authority", R + ".scheme", U + ":hostport"], idna_facts=True)
     def s_edit(vc):
-        scheme = vc.case("scheme", [b"http", b"https"])
-        names, vals = header_cases(vc)
-        old_host, old_port = vc.sym_str("old_host"), vc.sym_int("old_port")
-        old_auth = vc.case("authority", [b"", "symbolic"])
-        if old_auth == "symbolic":
+        hcfg, acfg = vc.case("config", EDIT_CONFIGS)
+        names, vals = header_cases(vc, [hcfg])
+        old_host = vc.sym_str("old_host")
+        old_port = vc.case("old_port", SCHEME_PORTS[scheme]) if kind == "host" else vc.sym_int("old_port")
+        old_auth = b""
+        if acfg == "symbolic":
             old_auth = vc.sym_bytes("old_authority")
             vc.assume(len_(old_auth) > 0)
-        http_version = vc.case("http_version", [b"HTTP/1.1", b"HTTP/2.0"])
-        req, data, hdrs = mk_request(vc, scheme, old_host, old_port, old_auth, tuple(zip(names, vals)), http_version)
+        req, data, hdrs = mk_request(vc, scheme, old_host, old_port, old_auth, tuple(zip(names, vals)))
         if kind == "host":
             new_host = vc.sym_str("new_host")
             out = _set_attr(vc, req, "host", new_host)
             host, port = new_host, old_port
         else:
-            new_port = vc.sym_int("new_port")
+            new_port = vc.case("new_port", SCHEME_PORTS[scheme])
             out = _set_attr(vc, req, "port", new_port)
             host, port = old_host, new_port
         vc.ensure("no_exception", out.ok)
@@ -261,8 +271,9 @@ def _set_attr(vc, obj, name, value):
         return Outcome(raised=pe.exc)
 
 
-_mk_edit("host")
-_mk_edit("port")
+for _k in ("host", "port"):
+    for _s in (b"http", b"https"):
+        _mk_edit(_k, _s)
 
 
 def parse_summary(result):
@@ -271,17 +282,17 @@ def parse_summary(result):
     return summ
 
 
-@scenario("url.setter", functions=[R + ".url", R + ".scheme", R + ".host", R + ".port", R + ".path", R + "._update_host_and_authority"], idna_facts=True)
-def s_url_setter(vc):
-    """url.parse is summarised: it returns some (scheme, host, port, path) with an IDNA-decodable pure-ASCII host (its urllib/idna
+def _mk_url_setter(new_scheme):
+  @scenario(f"url.setter[{new_scheme.decode()}]", functions=[R + ".url", R + ".scheme", R + ".host", R + ".port", R + ".path", R + "._update_host_and_authority"], idna_facts=True)
+  def s_url_setter(vc):
+    """url.parse is summarised: it returns some (scheme, host, port, path) with a non-empty, IDNA-decodable pure-ASCII host (its urllib/idna
     internals are library behaviour: T2).  Contract: every component is stored, and Host/authority follow the *new* scheme, host and port."""
-    old_scheme = vc.case("old_scheme", [b"http", b"https"])
-    new_scheme = vc.case("new_scheme", [b"http", b"https"])
-    names, vals = header_cases(vc)
+    old_scheme = b"https"
+    names, vals = header_cases(vc, ["", "Host", "other,host,other"])
     old_auth = vc.case("authority", [b"", b"old.example:81"])
-    req, data, hdrs = mk_request(vc, old_scheme, vc.sym_str("old_host"), vc.sym_int("old_port"), old_auth, tuple(zip(names, vals)))
-    host_b, port, path = vc.sym_bytes("parsed_host"), vc.sym_int("parsed_port"), vc.sym_bytes("parsed_path")
-    vc.assume(And(is_ascii(vc, host_b), Not(contains(host_b, b"xn--"))))
+    req, data, hdrs = mk_request(vc, old_scheme, vc.sym_str("old_host"), vc.case("old_port", [80, 8080]), old_auth, tuple(zip(names, vals)))
+    host_b, port, path = vc.sym_bytes("parsed_host"), vc.case("parsed_port", SCHEME_PORTS[new_scheme]), vc.sym_bytes("parsed_path")
+    vc.assume(And(len_(host_b) > 0, is_ascii(vc, host_b), Not(contains(host_b, b"xn--"))))   # parse: "No hostname given" otherwise
     text = vc.sym_str("url")
     vc.summary("mitmproxy.net.http.url:parse", parse_summary(vc.lift((new_scheme, host_b, port, path))))
     out = _set_attr(vc, req, "url", text)
@@ -294,6 +305,12 @@ def s_url_setter(vc):
     vc.ensure("port_stored", data.port == port)
     vc.ensure("path_stored", data.path == path)
     check_host_and_authority(vc, "dest", data, hdrs, names, vals, new_scheme, host, port, old_auth)
+
+  return s_url_setter
+
+
+_mk_url_setter(b"http")
+_mk_url_setter(b"https")
 
 
 @scenario("url.getter", functions=[R + ".url", R + ".first_line_format", R + ".method", U + ":unparse", U + ":hostport"])
